@@ -382,6 +382,8 @@ class Exec:
         r = self._dispatch('listcomp', st, e)
         if r is not NotImplemented:
             return r
+        if len(e.generators) == 1 and e.generators[0].ifs and not e.generators[0].is_async and id(e) in self.loops:
+            return self._filtered_comp(st, e, self.loops[id(e)])
         if len(e.generators) != 1 or e.generators[0].ifs or e.generators[0].is_async:
             raise OutOfSubset('comprehension with filter / several generators: %s' % ast.unparse(e)[:60])
         g = e.generators[0]
@@ -416,6 +418,73 @@ class Exec:
         if r is NotImplemented:
             raise OutOfSubset('dict comprehension: %s' % ast.unparse(e)[:60])
         return r
+
+    def _filtered_comp(self, st, e, spec):
+        """[elt for x in xs if c1 if c2 ...] with a sidecar invariant, as the loop
+               res = [];  for x in xs:  if c1 and c2 ...: res.append(elt)
+        in expression position: inv_init / inv_preserved (one per branch) are obligations; the value is a havocked list about
+        which the invariant at k == len(xs) is known.  The invariant reads st.ghost[name + '.k' | '.n' | '.res' | '.iter'].
+        An element test or element expression that may raise yields a failing safety obligation (not propagated)."""
+        g = e.generators[0]
+        it = self.eval(st, g.iter)
+        n, at = self.iterate(st, it)
+        nm = spec.name
+        empty = self._dispatch('list_op', st, 'empty')
+        if empty is NotImplemented:
+            raise OutOfSubset('filtered comprehension needs a list theory')
+        entry = st.fork()
+        s0 = st.fork(); s0.guards = []; s0.pc = st.pc + list(st.guards)
+        s0.ghost.update({nm + '.k': IntVal(0), nm + '.n': n, nm + '.res': empty, nm + '.iter': it})
+        self._check_inv(s0, spec, entry, 'inv_init', 'inv_init')
+        # one arbitrary iteration
+        h = s0.fork()
+        k = fresh_int('k')
+        probe = h.fork(); probe.env = dict(st.env); probe.pending = []
+        self.assign(probe, g.target, at(probe, k), None)
+        elem_kind = None
+        try:
+            elem_kind = self.eval(probe.fork(), e.elt).kind
+        except OutOfSubset:
+            pass
+        res_h = self._dispatch('list_op', st, 'fresh', nm.split('.')[-1] + '_res', elem_kind)
+        h.ghost[nm + '.k'] = k
+        h.ghost[nm + '.res'] = res_h
+        h.pc.append(And(0 <= k, k <= n))
+        self._assume_inv(h, spec, entry)
+        body = h.fork(); body.pc.append(k < n); body.env = dict(st.env); body.pending = []
+        if self.feasible(body):
+            self.assign(body, g.target, at(body, k), None)
+            conds = []
+            for c in g.ifs:
+                t = self.truth(body, self.eval(body, c))
+                conds.append(t)
+                body.guards.append(t)
+            body.guards = []
+            keep = And(*conds)
+            yes = body.fork(); yes.pc.append(keep); yes.pending = []
+            v = self.eval(yes, e.elt)
+            for o in body.pending + yes.pending:
+                if self.feasible(o.st):
+                    self.oblige(o.st, '%s.element_never_raises.%s' % (nm, o.val), BoolVal(False), kind='safety')
+            yes.ghost[nm + '.k'] = k + 1
+            yes.ghost[nm + '.res'] = self._dispatch('list_op', st, 'append', res_h, v)
+            if self.feasible(yes):
+                self._check_inv(yes, spec, entry, 'inv_preserved.kept', 'inv_preserved')
+            no = body.fork(); no.pc.append(Not(keep))
+            no.ghost[nm + '.k'] = k + 1
+            if self.feasible(no):
+                self._check_inv(no, spec, entry, 'inv_preserved.skipped', 'inv_preserved')
+        # after the loop: a fresh list about which the invariant at k == n holds
+        res_x = self._dispatch('list_op', st, 'fresh', nm.split('.')[-1] + '_out', elem_kind)
+        view = st.fork()
+        view.ghost.update({nm + '.k': n, nm + '.n': n, nm + '.res': res_x, nm + '.iter': it})
+        for cname, c in spec.inv(view, entry):
+            st.assume(c)
+        st.ghost[nm + '.res'] = res_x
+        st.ghost[nm + '.iter'] = it
+        st.ghost[nm + '.n'] = n
+        self.use('engine:filtered comprehension desugared to an accumulating loop with a sidecar invariant')
+        return res_x
 
     def e_Lambda(self, st, e):
         return SV('func', None, node=e, closure=dict(st.env))
@@ -511,7 +580,10 @@ class Exec:
             if isinstance(a, ast.Starred):
                 v = self.eval(st, a.value)
                 if v.kind != 'tuple':
-                    raise OutOfSubset('*args of %s' % v.kind)
+                    v2 = self._dispatch('star', st, v)
+                    if v2 is NotImplemented or v2.kind != 'tuple':
+                        raise OutOfSubset('*args of %s' % v.kind)
+                    v = v2
                 args.extend(v.items)
             else:
                 args.append(self.eval(st, a))
